@@ -38,7 +38,8 @@ func TestMain(m *testing.M) {
 			"Oracle: the harness's own GLB/JSON/base64 reader checks container and chunk lengths and padding, every index reference, bufferView/accessor ranges, component alignment, declared min/max against the stored elements, index values, per-primitive attribute counts, extension declarations; " +
 			"then decodes: attributes and indices bit-equal to the float32/integer image of the descriptor, node TRS, instance accessors, lights, same mesh pointer => same accessors, same texture pointer => same texture, " +
 			"materials: every model's primitive references a material whose resolved content (textures followed to image URI, sampler values and texture transform; glTF defaults applied) is its own, distinct contents never share an entry, deep-equal materials share one. " +
-			"Non-trivial = at least 2 emitted models and (a mesh pointer shared by two models, or two models whose materials are the same pointer / equal by value, or a mesh with an odd index count). Distinct by case JSON.",
+			"Non-trivial = at least 2 emitted models and (a mesh pointer shared by two models, or two models whose materials are the same pointer / equal by value, or a mesh with an odd index count). Distinct by case JSON. " +
+			"Sub-check concurrent-writers: every concurrent-* case (2-5 bundled cases run at the same time after each passed alone) is non-trivial.",
 		Assumptions: []string{
 			"attribute values are finite and within float32 range (glTF forbids NaN/Inf; the writer narrows to float32); Joint values are integers 0..255 (stored as unsigned bytes)",
 			"scalar (Float1) attributes have no glTF counterpart in the writer: they may be absent from the output (if present they must decode to the model's values)",
